@@ -77,6 +77,42 @@ def check_corrupt(clipped_evs, data):
     return None
 
 
+def check_header_words():
+    """The three 16-bit header words in both directions: format 0..2, track counts, and
+    every kind of division - ticks per beat 1..32767 and the SMPTE form (bit 15 set),
+    which mido holds as a negative ticks_per_beat."""
+    import mido
+    out = []
+    for tpb in (1, 2, 96, 480, 0x7fff, -6360, -1, -0x8000, -7424 + 40):
+        for ftype, ntracks in ((0, 1), (1, 0), (1, 3), (2, 2)):
+            word = tpb & 0xffff
+            data = (b'MThd' + (6).to_bytes(4, 'big') + ftype.to_bytes(2, 'big') + ntracks.to_bytes(2, 'big') +
+                    word.to_bytes(2, 'big') + b'MTrk\x00\x00\x00\x04\x00\xff\x2f\x00' * ntracks)
+            for kw in ({}, {'clip': True}):
+                try:
+                    mid = smf.load_bytes(data, **kw)
+                except Exception as e:
+                    out.append(('rejects-legal/header', {'kind': 'header'},
+                                'header type %d, %d tracks, division %04X: load raised %r' % (ftype, ntracks, word, e)))
+                    break
+                if (mid.type, len(mid.tracks), mid.ticks_per_beat) != (ftype, ntracks, tpb):
+                    out.append(('wrong-header', {'kind': 'header'},
+                                'division word %04X (type %d, %d tracks) loaded as type %r, %d tracks, ticks_per_beat %r' % (
+                                    word, ftype, ntracks, mid.type, len(mid.tracks), mid.ticks_per_beat)))
+                    break
+                try:
+                    again = smf.save_bytes(mid)
+                except Exception as e:
+                    out.append(('smfwrite/save-raises/header', {'kind': 'header'},
+                                'a file loaded with division word %04X cannot be saved: %r' % (word, e)))
+                    break
+                if again[:14] != data[:14]:
+                    out.append(('smfwrite/header-bytes', {'kind': 'header'},
+                                'header written as %r, loaded from %r' % (again[:14], data[:14])))
+                    break
+    return out[:3]
+
+
 def worker(lines):
     res = {'n': 0, 'viol': [], 'samples': [], 'counts': {'legal': 0, 'corrupt': 0, 'with_running_status': 0,
                                                            'with_padding': 0}}
@@ -142,6 +178,9 @@ class Collect(core.ParallelReplay):
 
 
 def replay(case):
+    if case['kind'] == 'header':
+        v = check_header_words()
+        return v and v[0][2]
     if case['kind'] == 'custom_spec':
         from . import c09
         v = c09.check_custom_spec()
@@ -195,6 +234,9 @@ def run(ctx):
     if recs:
         ctx.sample({'written': {'tracks': recs[len(recs) // 2]['tracks'], 'bytes': recs[len(recs) // 2]['bytes'][14:]}})
     c07.run_random(ctx, 300 if thorough else 60, keyprefix='smfwrite')
+    for key, case, msg in check_header_words():
+        ctx.violation(key if key.startswith('smfwrite') else 'smfread/' + key, case, msg)
+    ctx.replayed += 72
     # a meta type registered through the documented extension point is read and written like the built-in ones
     from . import c09
     for key, msg in c09.check_custom_spec():
